@@ -18,7 +18,7 @@ fn main() {
             let env = Env::from_env(args.get(3).map(|s| s.as_str()));
             // wall-clock watchdog of the whole run: exceeding it is infrastructure trouble
             // (exit 2, inconclusive), never a verdict
-            let limit: u64 = std::env::var("QV_WALL_LIMIT_S").ok().and_then(|v| v.parse().ok()).unwrap_or(env.tier.pick(1800, 8 * 3600));
+            let limit: u64 = std::env::var("QV_WALL_LIMIT_S").ok().and_then(|v| v.parse().ok()).unwrap_or(env.tier.pick(2700, 8 * 3600));
             let wid = id.clone();
             std::thread::spawn(move || {
                 std::thread::sleep(std::time::Duration::from_secs(limit));
